@@ -243,14 +243,14 @@ def frac_str(q):
 # context handed to the per-property modules
 # ----------------------------------------------------------------------------------------------
 class Ctx:
-    def __init__(self, prop, tier, seed, driver, tie_broken):
+    def __init__(self, prop, tier, seed, driver, tie_broken, tie_scale=10):
         self.prop = prop
         self.tier = tier
         self.seed = seed
         self.rng = random.Random(seed * 1000003 + int(prop[1:]))
         self.driver = driver
         self.tie_broken = tie_broken
-        self.scale = (10 if tier == 'thorough' else 1) * (10 if tie_broken else 1)
+        self.scale = (10 if tier == 'thorough' else 1) * (tie_scale if tie_broken else 1)
         self.disagreements = []
         self.violations = []
         self.out_of_domain = []
@@ -350,7 +350,8 @@ def run_check(prop, tier, replay=None):
                          + '; failed files: ' + ', '.join(b.failed_modules))
     if need_driver and b.driver is None:
         tie_notes.append('driver did not build (model/generated code no longer compiles)')
-    ctx = Ctx(prop, tier, seed, Driver(b.driver) if b.driver else None, bool(tie_notes))
+    tie_scale = int(getattr(mod, 'TIE_SCALE', 10))   # budget multiplier of the failing-input search once the tie is broken
+    ctx = Ctx(prop, tier, seed, Driver(b.driver) if b.driver else None, bool(tie_notes), tie_scale)
     ctx.replay = replay
     try:
         try:
@@ -359,7 +360,7 @@ def run_check(prop, tier, replay=None):
                 # correspondence broke during the run: search again at 10x budget for a failing input
                 log(f'{prop}: model and implementation differ; searching again at 10x budget for a failing input')
                 first = ctx
-                ctx = Ctx(prop, tier, seed + 7919, first.driver, True)
+                ctx = Ctx(prop, tier, seed + 7919, first.driver, True, tie_scale)
                 ctx.replay = replay
                 ctx.disagreements = list(first.disagreements)
                 mod.run(ctx)
